@@ -96,3 +96,16 @@ def init_timestamp_candidates(cfg):
     exact = cfg.start * cfg.d // cfg.n
     ld = int(np.longdouble(cfg.start) / (np.longdouble(cfg.n) / np.longdouble(cfg.d)))
     return {exact, ld}
+
+
+def regenerate_pyfront(res):
+    """T6: the integer logic of DigitalRFWriter.rf_write / rf_write_blocks -> coq/Gen/PyFront.v"""
+    import c2gallina
+    import pyfront2gallina
+    try:
+        text = pyfront2gallina.translate(common.REPO)
+    except c2gallina.Unsupported as e:
+        res.broken.append("translator T6 (pyfront2gallina) rejects the current Python front end: %s" % e)
+        return False
+    common.write_if_changed(os.path.join(common.COQ, "Gen", "PyFront.v"), text)
+    return True
